@@ -13,7 +13,10 @@ META = {
                  "(abstract expressions, stores, iterables: holds for every expression semantics); model-vs-implementation "
                  "comparison of the chosen strategy and of the emitted loop structure; generated clause lists x scopes "
                  "executed and judged against a reference nested-loop interpreter; native/generator-function twins",
-    "level_text": "see coq/Props/C04.v. Oracle: clause lists of length 0..5 over for/:if/:setv/:do (with break/continue), with "
+    "level_text": "C04_genfn_eq_ref, C04_native_eq_ref, C04_strategies_agree (every clause list of any length incl. break/"
+                  "continue, every final form, every expression semantics), C04_for_else_iff_no_break, "
+                  "C04_native_undefined_iff_leading_if (+ refutation of totality: the leading-:if IndexError), "
+                  "C04_leak_iterator_partial / C04_leak_finalize_partial (ScopeGen side of the leak rule). Oracle: clause lists of length 0..5 over for/:if/:setv/:do (with break/continue), with "
                   "and without statement-producing subforms, finals incl. #* and #**, lfor/sfor/dfor/gfor/for, in module, "
                   "function and class scope; results, effect order, exception kind, leaked names, gfor laziness, for/else.",
     "level_note": "Python's own semantics of comprehensions / generator functions / nonlocal is the trusted executor; the Coq "
